@@ -190,6 +190,9 @@ def gen_cases(ctx: Ctx):
              "restart": [None, "previous", "perturbed"][i % 3]}
         c["perm"] = bool(k > 1 and c["restart"] is None)
         cases.append(("solver_pair", c))
+    # unrestricted singlet against restricted on a mixed-size batch with the smaller molecule LAST (padding orbitals of every spin block), in every run
+    cases.append(("solver_pair", {"names": [["ch2o", "h2o"], ["c2h4", "nh3", "h2"], ["so2", "hf"]][ctx.seed % 3], "method": methods[ctx.seed % 4], "eps": 1e-9, "a": ["uhf_singlet", "uhf_singlet_fixed"][ctx.seed % 2],
+                                 "b": "adaptive", "seed": int(rng.integers(0, 10**6)), "restart": None}))
     # each differentiable-mode configuration against a plain one (quick: two of them)
     bwc = ["fixed0_bw2", "fixed1_bw2", "fixed6_bw1", "adaptive_bw2", "pulay_bw1"]
     for j in range(len(bwc) if ctx.thorough else 2):
